@@ -7,9 +7,12 @@ CONSTANTS
   BlockInfo <- MC_BlockInfo
   LogNames <- MC_LogNames
   TraceSteps <- MC_Trace3
+  FuncBodies <- MC_FuncBodies
   MaxHist = 1000
   AsFound_VarListCached = TRUE
   AsFound_TraceBreaksFunctions = TRUE
   Hyp_IdResetPerModel = FALSE
+  Hyp_SharedFunctions = FALSE
+  Hyp_RhsCachedByName = FALSE
 POSTCONDITION AllConsumed
 CHECK_DEADLOCK FALSE
